@@ -232,6 +232,7 @@ MC_FAMILIES = {  # cfg file, (quick depth, thorough depth)
     "version": ("MC_Version.cfg", (10, 12)),
     "debt": ("MC_Debt.cfg", (7, 8)),
     "stagger": ("MC_Stagger.cfg", (12, 14)),
+    "rewardage": ("MC_Reward.cfg", (6, 7)),      # the reward family from a genesis 5000 coins before the subsidy's first halving
 }
 MC_FAMILY_CFG = {"accounts": 8, "dids": 2, "validators": 2, "balance": 10000000, "blockReward": 840}
 
@@ -243,6 +244,8 @@ def model_check_families(binary, workdir, tier):
         d = os.path.join(workdir, fam)
         stage_spec(d)
         gcfg = MC_CFG if fam in ("timeout", "sponsor", "migrate", "version", "debt", "stagger") else MC_FAMILY_CFG   # the timeout family jumps over long spans: no block reward there
+        if fam == "rewardage":
+            gcfg = dict(MC_FAMILY_CFG, blockReward=2520, rewardBase="199999999995000")
         if fam == "fault":
             gcfg = GEN_CFG                                     # a03 is a fishman
         if fam == "sidauth":
